@@ -1363,7 +1363,7 @@ def run(ctx):
                  "content; non-trivial = everything except the plain sequential call batches and the CRC cross-check, i.e. "
                  "cases with corrupted/inconsistent/cut/concatenated/dribbled frames, wire capture, multiplexed calls, or "
                  "boundary lengths through hand-made frames")
-        ctx.note("exhaustive", "all 96 (socket) and 64 (UDP) single-bit header corruptions for each base header, both directions")
+        ctx.note("exhaustive_note", "all 96 (socket) and 64 (UDP) single-bit header corruptions for each base header, both directions")
     finally:
         m.close()
 
